@@ -218,7 +218,7 @@ func (h *Handle) Walk(ctx context.Context, names ...string) ([]p9p.Qid, p9p.Dire
 	if !ok || e.Out == "fail" {
 		return nil, nil, ErrFS("walk")
 	}
-	if fs.Decide != nil {
+	if fs.Decide != nil && e.Out == "ok" {
 		e.K = len(names)
 	}
 	qids := make([]p9p.Qid, e.K)
